@@ -624,5 +624,7 @@ def rule_layout(ctx):
 
 
 RULES.append(("C15.LAYOUT", "quick", rule_layout))
+# fields the parsers leave open (empty lists, absent payloads) are closed by the ClientHello sanity checks
+RULES.append(("C15.HELLO", "quick", borrowed("c08", "rule_hello_checks", "C08.HELLO", "C15.HELLO")))
 # parse(write(x)) == x for tickets needs the format version to cover the fields set
 RULES.append(("C15.TICKET-FIELDS", "quick", borrowed("c13", "rule_ticket_fields", "C13.TICKET-FIELDS", "C15.TICKET-FIELDS")))
